@@ -2069,6 +2069,12 @@ pub struct VerifAccounting {
 
 #[cfg(redb_verif)]
 impl Database {
+    /// (read references held by read transactions and savepoints, valid savepoints, persistent
+    /// savepoints) as the transaction tracker counts them
+    pub fn verif_tracker_counts(&self) -> (u64, u64, u64) {
+        self.transaction_tracker.verif_counts()
+    }
+
     /// Must be called while no write transaction is live
     pub fn verif_accounting(&self) -> Result<VerifAccounting, StorageError> {
         fn raw(page: PageNumber) -> u64 {
